@@ -17,5 +17,6 @@ CONSTANTS
   MaxSteps = 1
   HostileSteps = 1
   AllScopes = FALSE
-  GenWhat = {"subnames"}
+  GenWhat = {"subnames", "sublist"}
+  GenFull = FALSE
 CHECK_DEADLOCK FALSE
